@@ -55,8 +55,17 @@ func NewUnpackInfo(dst string, header *tar.Header) (UnpackInfo, error) {
 	// immediate parent directory of the file name in the tarball, checking
 	// the mode on each to ensure we wouldn't be passing through any
 	// symlinks.
+	//
+	// The walk follows the cleaned path relative to dst, i.e. the location the
+	// entry is really extracted to. The raw name may contain ".." segments, and
+	// walking those literally (n/../a/l/k) would stop at the first component
+	// that does not exist (n) without ever looking at a/l.
 	currentPath := dst // Start at the root of the unpacked tarball.
-	components := strings.Split(header.Name, "/")
+	relTarget, err := filepath.Rel(filepath.Clean(dst), target)
+	if err != nil {
+		return UnpackInfo{}, fmt.Errorf("failed to evaluate path %q: %w", header.Name, err)
+	}
+	components := strings.Split(relTarget, string(filepath.Separator))
 
 	for i := 0; i < len(components)-1; i++ {
 		currentPath = filepath.Join(currentPath, components[i])
